@@ -807,6 +807,18 @@ def build_trigger(tp_id: str, path: str, line_no: int, args: Dict[str, str], wat
     metrics = [MetricDefinition(m.name, m.type, list(m.labels) if m.labels is not None else None, m.expression,
                                 m.namespace, m.help, m.unit) for m in metrics] if metrics is not None else []
 
+    # the line is a whole number (as text too: '12'). Anything else cannot be interpreted, and is refused here like an
+    # unknown stage - as a location it would never match, or raise on every event of the file
+    if line_no is None and METHOD_NAME in args:
+        line_no = -1
+    try:
+        whole = int(line_no)
+        if isinstance(line_no, bool) or whole != line_no and not isinstance(line_no, str):
+            raise ValueError()
+    except (TypeError, ValueError, OverflowError):
+        raise ValueError("The line of tracepoint %s is not a number: %s" % (tp_id, line_no))
+    line_no = whole
+
     stage_ = METHOD_START if METHOD_NAME in args else LINE_START
 
     if SPAN in args and args[SPAN] == METHOD:
